@@ -46,13 +46,13 @@ TEXTS = {
                 "of replies is empty (built-in interface, unknown interface/method, no dot, bad parameters included); "
                 "C04_alignment: in every connection the slot of each oneway request is empty. P_C04 on the real reply stream "
                 "(no reply mentions a oneway request's token; finals never exceed non-oneway requests).",
-        "design_ref": "§7 C04", "note": _WIRE_NOTE + " Client half: see C07.",
+        "design_ref": "§7 C04", "note": _WIRE_NOTE + " Client half: Model.Client (Props/C07.lean: C04_client_oneway, C04_client_oneway_never_reads), tied by the client suite which this check also runs.",
         "technique": "Lean 4 proof (induction over scripts and frame lists) + correspondence run",
     },
     "C05": {
         "text": "Theorems: the gate (C05_gate, C05_mismatch_writes_nothing) and, for every request, every plain script of any "
                 "length and every connection, no reply with continues:true unless the request carried more:true "
-                "(C05_continues_only_for_more, C05_connection). Client iteration half is in C07's client model. "
+                "(C05_continues_only_for_more, C05_connection). Client half: C05_iteration over Model.Client (Props/C07.lean, induction on the number of continues replies), tied by the client suite which this check also runs. "
                 "Correspondence with scripted interfaces (gate-violating scripts included); P_C05 on real output.",
         "design_ref": "§7 C05", "note": _WIRE_NOTE,
         "technique": "Lean 4 proof (induction over action scripts) + correspondence run",
